@@ -122,42 +122,66 @@ def extract(config="default", repo=REPO):
     return out, th, False
 
 
+_sigs = None
+ALIASES = {}
+
+
+def private_sigs():
+    global _sigs
+    if _sigs is None:
+        p = os.path.join(VERIF, "sa", "rules", "private_sigs.json")
+        _sigs = json.load(open(p)) if os.path.exists(p) else {}
+    return _sigs
+
+
+def renamed_privates(crates):
+    """A private helper that rules name may be renamed (the commonest maintenance edit there is).  It is recognised again by
+    where it lives and its signature: same module / impl block, same parameter and return types, not part of the public or
+    `internals` surface, a name today's table does not know, and exactly one such candidate.  Returns {new key: old key}.
+    Anything else (two candidates, changed signature) stays an `anchor-missing` report."""
+    sigs = private_sigs()
+    out = {}
+    for old, sg in sigs.items():
+        j = crates.get(sg["crate"])
+        if j is None:
+            continue
+        keys = {f["key"] for f in j["fns"]}
+        if old in keys:
+            continue
+        parent = old.rsplit("::", 1)[0]
+        cands = [f for f in j["fns"] if f.get("kind") in ("Fn", "AssocFn") and f["key"].rsplit("::", 1)[0] == parent
+                 and f["key"] not in sigs and f.get("vis") != "Public" and not f.get("reachable")
+                 and f.get("inputs") == sg["inputs"] and f.get("output") == sg["output"]]
+        if len(cands) == 1 and cands[0]["key"] not in out:
+            out[cands[0]["key"]] = old
+    return out
+
+
 def load(config="default", repo=REPO):
     d, th, cached = extract(config, repo)
     crates = {}
+    raws = {}
     want = CRATES if config == "default" else ["frost_core"]
     for c in want:
         with open(os.path.join(d, c + ".json")) as f:
             raw = f.read()
-        raw = raw.replace("crate::", c + "::")
-        crates[c] = json.loads(raw)
+        raws[c] = raw.replace("crate::", c + "::")
+        crates[c] = json.loads(raws[c])
+    al = renamed_privates(crates)
+    ALIASES.clear()
+    ALIASES.update(al)
+    if al:
+        import re
+        for c in want:
+            raw = raws[c]
+            for new, old in al.items():
+                raw = re.sub(re.escape(new) + r"(?![A-Za-z0-9_])", lambda m: old, raw)
+                nn, on = new.rsplit("::", 1)[1], old.rsplit("::", 1)[1]
+                raw = raw.replace('"name":"%s"' % nn, '"name":"%s"' % on).replace('"name": "%s"' % nn, '"name": "%s"' % on)
+            crates[c] = json.loads(raw)
+    for c in want:
         if config == "default":
             n = sum(1 for f in crates[c]["fns"] if f.get("blocks"))
             if n < BODY_FLOORS[c]:
                 raise FactError("crate %s: %d MIR bodies < floor %d" % (c, n, BODY_FLOORS[c]))
     return crates, th, cached
-
-
-def fixture_facts():
-    """facts of /verif/fixtures/lib.rs (positive controls), compiled with the driver directly"""
-    src = os.path.join(VERIF, "fixtures", "lib.rs")
-    with open(src, "rb") as f:
-        h = hashlib.sha256(f.read())
-    with open(os.path.join(VERIF, "driver", "src", "dump.rs"), "rb") as f:
-        h.update(f.read())
-    out = os.path.join(CACHE, "fixtures", h.hexdigest()[:16])
-    fj = os.path.join(out, "fixtures.json")
-    if not os.path.exists(fj):
-        ensure_driver()
-        os.makedirs(out, exist_ok=True)
-        env = dict(os.environ)
-        env.update({"LD_LIBRARY_PATH": sysroot() + "/lib", "FROST_FACTS_DIR": out})
-        r = subprocess.run([DRIVER, src, "--crate-type", "lib", "--crate-name", "fixtures", "--edition", "2021",
-                            "-Zmir-opt-level=0", "-Awarnings", "-Coverflow-checks=on", "-Cdebug-assertions=on",
-                            "--emit=metadata", "-o", os.path.join(out, "libfixtures.rmeta")],
-                           env=env, capture_output=True, text=True)
-        if r.returncode != 0 or not os.path.exists(fj):
-            raise FactError("fixture crate failed to compile:\n" + r.stderr[-2000:])
-    with open(fj) as f:
-        raw = f.read().replace("crate::", "fixtures::")
-    return {"fixtures": json.loads(raw)}
